@@ -375,9 +375,489 @@ theorem export_init (ext : Ext) (g : Genesis) (st : Store) (hv : g.validate ext 
             if_neg (by rw [← he]; simp), if_neg (by rw [← he]; simp), if_neg (by rw [← he]; simp), if_pos (by rw [← he]; simp)]; rfl) x hx
       exact ⟨_, _, this, prefix_msgr _, rfl⟩
 
--- TMPCUT
+/-! ### the other direction: init (export st) = st -/
 
-/-! ### the other direction, and the KNOWN FINDING -/
+theorem getRole_some {st : Store} {k r : Bytes} (h : getRole st k = some r) : st.get k = some (.role r) := by
+  unfold getRole at h; split at h <;> simp_all
+theorem getFlag_some {st : Store} {k : Bytes} {b : Bool} (h : getFlag st k = some b) : st.get k = some (.flag b) := by
+  unfold getFlag at h; split at h <;> simp_all
+theorem getSize_some {st : Store} {n : Nat} (h : getSize st = some n) : st.get Key.maxBody = some (.size n) := by
+  unfold getSize at h; split at h <;> simp_all
+theorem getThreshold_some {st : Store} {n : Nat} (h : getThreshold st = some n) : st.get Key.threshold = some (.threshold n) := by
+  unfold getThreshold at h; split at h <;> simp_all
+theorem getNextNonce_some {st : Store} {p : Nat × Nat} (h : getNextNonce st = some p) :
+    st.get Key.nextNonce = some (.nonce p.1 p.2) := by
+  unfold getNextNonce at h; split at h
+  · simp only [Option.some.injEq] at h; subst h; assumption
+  · cases h
+
+/-- the keys of a sorted store are pairwise distinct. -/
+theorem keys_nodup {s : Store} (h : s.WF) : (s.map Prod.fst).Nodup := by
+  induction s with
+  | nil => exact List.nodup_nil
+  | cons p rest ih =>
+    obtain ⟨k, v⟩ := p
+    obtain ⟨h1, h2⟩ := h
+    simp only [List.map_cons, List.nodup_cons]
+    refine ⟨?_, ih h2⟩
+    intro hm
+    obtain ⟨e, he, hk⟩ := List.mem_map.mp hm
+    have := h1 e he
+    rw [hk, blt_irrefl] at this
+    cases this
+
+/-- the keys rebuilt from the values found by a prefix scan are the store keys they were found under. -/
+theorem scanMap_keys {α} (l : List (Bytes × Val)) (f : Val → Option α) (key : α → Bytes)
+    (hk : ∀ kv ∈ l, ∀ x, f kv.2 = some x → key x = kv.1) :
+    (l.filterMap fun kv => f kv.2).map key = (l.filter fun kv => (f kv.2).isSome).map Prod.fst := by
+  induction l with
+  | nil => rfl
+  | cons p rest ih =>
+    have ih' := ih (fun kv hkv => hk kv (List.mem_cons_of_mem _ hkv))
+    cases hf : f p.2 with
+    | none => simp [hf, ih']
+    | some x =>
+      have := hk p List.mem_cons_self x hf
+      simp [hf, ih', this]
+
+theorem scanMap_nodup {α} (st : Store) (hwf : st.WF) (pfx : Bytes) (f : Val → Option α) (key : α → Bytes)
+    (hk : ∀ k v, st.get k = some v → ∀ x, f v = some x → key x = k) :
+    ((scanMap st pfx f).map key).Nodup := by
+  unfold scanMap
+  rw [scanMap_keys _ f key (fun kv hkv x hx => hk kv.1 kv.2 (Store.get_of_mem hwf (Store.mem_scan.mp hkv).1) x hx)]
+  have h1 : ((st.scan pfx).filter fun kv => (f kv.2).isSome).Sublist st :=
+    List.Sublist.trans List.filter_sublist (by unfold Store.scan; exact List.filter_sublist)
+  exact List.Nodup.sublist (h1.map Prod.fst) (keys_nodup hwf)
+
+/-- a store the module can be in after genesis: the four roles and five scalars are present, and no ownership
+    transfer is in flight (the pending owner is what `pending_owner_lost` shows cannot survive). -/
+structure Exportable (st : Store) : Prop where
+  roles : RolesSet st
+  noPending : st.get Key.pendingOwner = none
+  burnFlag : (getFlag st Key.burnPaused).isSome
+  sendFlag : (getFlag st Key.sendPaused).isSome
+  size : (getSize st).isSome
+  nonce : (getNextNonce st).isSome
+  threshold : ∃ t, getThreshold st = some t ∧ t ≠ 0
+
+
+def attOf : Val → Option Bytes | .attester a => some a | _ => none
+
+theorem attestersOf_scanMap_attOf (st : Store) : attestersOf st = scanMap st AttesterKeyPrefix attOf := by
+  unfold attestersOf scanMap
+  congr 1
+
+/-- what `ExportGenesis` returns on a store whose four roles are `o a p t`. -/
+def exported (st : Store) (o a p t : Bytes) : Genesis where
+  owner := o
+  attesterManager := a
+  pauser := p
+  tokenController := t
+  attesters := attestersOf st
+  limits := scanMap st PerMessageBurnLimitKeyPrefix limOf
+  burnPaused := some ((getFlag st Key.burnPaused).getD false)
+  sendPaused := some ((getFlag st Key.sendPaused).getD false)
+  maxBody := getSize st
+  nextNonce := getNextNonce st
+  threshold := getThreshold st
+  pairs := scanMap st TokenPairKeyPrefix pairOf
+  used := scanMap st UsedNonceKeyPrefix usedOf
+  messengers := scanMap st RemoteTokenMessengerKeyPrefix msgrOf
+
+theorem export_ok {st : Store} (h : RolesSet st) :
+    ∃ o a p t, getRole st Key.owner = some o ∧ getRole st Key.attesterManager = some a ∧
+      getRole st Key.pauser = some p ∧ getRole st Key.tokenController = some t ∧
+      exportG st = .ok (exported st o a p t) := by
+  obtain ⟨o, ho⟩ := Option.isSome_iff_exists.mp h.owner
+  obtain ⟨a, ha⟩ := Option.isSome_iff_exists.mp h.attesterManager
+  obtain ⟨p, hp⟩ := Option.isSome_iff_exists.mp h.pauser
+  obtain ⟨t, ht⟩ := Option.isSome_iff_exists.mp h.tokenController
+  refine ⟨o, a, p, t, ho, ha, hp, ht, ?_⟩
+  simp [exportG, exported, ho, ha, hp, ht, getMust, bind, Except.bind, pure, Except.pure]
+
+/-- the exported lists are free of key collisions (so the export passes the duplicate checks of Validate). -/
+theorem exported_nodup (ext : Ext) {st : Store} (hg : Good ext st) (o a p t : Bytes) :
+    ((exported st o a p t).attesters.map Key.attester).Nodup ∧
+    ((exported st o a p t).limits.map fun l => Key.limit l.1).Nodup ∧
+    ((exported st o a p t).pairs.map fun p => Key.tokenPair ext p.1 p.2.1).Nodup ∧
+    ((exported st o a p t).used.map fun u => Key.usedNonce u.1 u.2).Nodup ∧
+    ((exported st o a p t).messengers.map fun m => Key.messenger m.1).Nodup := by
+  simp only [exported]
+  refine ⟨?_, ?_, ?_, ?_, ?_⟩
+  · rw [attestersOf_scanMap_attOf]
+    apply scanMap_nodup st hg.wf _ attOf Key.attester
+    intro k v hgk x hx
+    cases v <;> simp [attOf] at hx
+    subst hx; exact (hg.typed k _ hgk).symm
+  · apply scanMap_nodup st hg.wf _ limOf (fun l => Key.limit l.1)
+    intro k v hgk x hx
+    cases v <;> simp [limOf] at hx
+    subst hx; exact (hg.typed k _ hgk).symm
+  · apply scanMap_nodup st hg.wf _ pairOf (fun p => Key.tokenPair ext p.1 p.2.1)
+    intro k v hgk x hx
+    cases v <;> simp [pairOf] at hx
+    subst hx; exact (hg.typed k _ hgk).symm
+  · -- used nonces: the scan is restricted to the used-nonce prefix, which excludes the next-nonce record
+    unfold scanMap
+    rw [scanMap_keys _ usedOf (fun u => Key.usedNonce u.1 u.2)]
+    · have h1 : ((st.scan UsedNonceKeyPrefix).filter fun kv => (usedOf kv.2).isSome).Sublist st :=
+        List.Sublist.trans List.filter_sublist (by unfold Store.scan; exact List.filter_sublist)
+      exact List.Nodup.sublist (h1.map Prod.fst) (keys_nodup hg.wf)
+    · intro kv hkv x hx
+      obtain ⟨hm, hp⟩ := Store.mem_scan.mp hkv
+      have hgk := Store.get_of_mem hg.wf hm
+      obtain ⟨k, v⟩ := kv
+      cases v <;> simp [usedOf] at hx
+      subst hx
+      rcases hg.typed k _ hgk with h | h
+      · exact absurd (Key.cls_of_prefix_usedNonce k hp) (by rw [h]; simp)
+      · exact h.symm
+  · apply scanMap_nodup st hg.wf _ msgrOf (fun m => Key.messenger m.1)
+    intro k v hgk x hx
+    cases v <;> simp [msgrOf] at hx
+    subst hx; exact (hg.typed k _ hgk).symm
+
+/-! the `hseg` side conditions of `stored_of_listed`, one per keyed list -/
+theorem hseg_att (ext : Ext) (g : Genesis) (k : Bytes) (h : ∃ e ∈ g.attesters, Key.attester e = k) :
+    lastWrite (initWrites ext g) k = lastWrite (g.attesters.map fun x => (Key.attester x, some (Val.attester x))) k := by
+  obtain ⟨e, _, he⟩ := h
+  rw [lastWrite_init, if_neg (by rw [← he]; simp), if_pos (by rw [← he]; simp)]; rfl
+theorem hseg_lim (ext : Ext) (g : Genesis) (k : Bytes) (h : ∃ e ∈ g.limits, Key.limit e.1 = k) :
+    lastWrite (initWrites ext g) k = lastWrite (g.limits.map fun x => (Key.limit x.1, some (Val.limit x.1 x.2))) k := by
+  obtain ⟨e, _, he⟩ := h
+  rw [lastWrite_init, if_neg (by rw [← he]; simp), if_neg (by rw [← he]; simp), if_pos (by rw [← he]; simp)]; rfl
+theorem hseg_pair (ext : Ext) (g : Genesis) (k : Bytes) (h : ∃ e ∈ g.pairs, Key.tokenPair ext e.1 e.2.1 = k) :
+    lastWrite (initWrites ext g) k =
+      lastWrite (g.pairs.map fun x => (Key.tokenPair ext x.1 x.2.1, some (Val.pair x.1 x.2.1 x.2.2))) k := by
+  obtain ⟨e, _, he⟩ := h
+  rw [lastWrite_init, if_neg (by rw [← he]; simp), if_neg (by rw [← he]; simp), if_neg (by rw [← he]; simp),
+    if_neg (by rw [← he]; simp), if_pos (by rw [← he]; simp)]; rfl
+theorem hseg_used (ext : Ext) (g : Genesis) (k : Bytes) (h : ∃ e ∈ g.used, Key.usedNonce e.1 e.2 = k) :
+    lastWrite (initWrites ext g) k = lastWrite (g.used.map fun x => (Key.usedNonce x.1 x.2, some (Val.nonce x.1 x.2))) k := by
+  obtain ⟨e, _, he⟩ := h
+  rw [lastWrite_init, if_neg (by rw [← he]; simp), if_neg (by rw [← he]; simp), if_neg (by rw [← he]; simp),
+    if_neg (by rw [← he]; simp), if_neg (by rw [← he]; simp), if_pos (by rw [← he]; simp)]; rfl
+theorem hseg_msgr (ext : Ext) (g : Genesis) (k : Bytes) (h : ∃ e ∈ g.messengers, Key.messenger e.1 = k) :
+    lastWrite (initWrites ext g) k =
+      lastWrite (g.messengers.map fun x => (Key.messenger x.1, some (Val.messenger x.1 x.2))) k := by
+  obtain ⟨e, _, he⟩ := h
+  rw [lastWrite_init, if_neg (by rw [← he]; simp), if_neg (by rw [← he]; simp), if_neg (by rw [← he]; simp),
+    if_neg (by rw [← he]; simp), if_neg (by rw [← he]; simp), if_neg (by rw [← he]; simp), if_pos (by rw [← he]; simp)]; rfl
+
+/-- **init(export st) = st** — the round trip in the other direction, for every store the module can be in
+    after genesis *with no ownership transfer in flight*: exporting succeeds, the export passes the duplicate
+    checks, importing it into an empty chain succeeds and rebuilds the very same store (same keys, same
+    values, hence same iteration order and same answers to every query).  The excluded case is exactly the
+    known finding `pending_owner_lost`. -/
+theorem init_export_partial (ext : Ext) (st : Store) (hg : Good ext st) (hx : Exportable st) :
+    ∃ g, exportG st = .ok g ∧ Genesis.init ext [] g = .ok st ∧
+      (g.attesters.map Key.attester).Nodup ∧ (g.limits.map fun l => Key.limit l.1).Nodup ∧
+      (g.pairs.map fun p => Key.tokenPair ext p.1 p.2.1).Nodup ∧ (g.used.map fun u => Key.usedNonce u.1 u.2).Nodup ∧
+      (g.messengers.map fun m => Key.messenger m.1).Nodup := by
+  obtain ⟨o, a, p, t, ho, ha, hp, ht, hex⟩ := export_ok hx.roles
+  obtain ⟨n1, n2, n3, n4, n5⟩ := exported_nodup ext hg o a p t
+  obtain ⟨bf, hbf⟩ := Option.isSome_iff_exists.mp hx.burnFlag
+  obtain ⟨sf, hsf⟩ := Option.isSome_iff_exists.mp hx.sendFlag
+  obtain ⟨sz, hsz⟩ := Option.isSome_iff_exists.mp hx.size
+  obtain ⟨nn, hnn⟩ := Option.isSome_iff_exists.mp hx.nonce
+  obtain ⟨th, hth, hth0⟩ := hx.threshold
+  refine ⟨exported st o a p t, hex, ?_, n1, n2, n3, n4, n5⟩
+  generalize hgdef : exported st o a p t = g at *
+  have gOwner : g.owner = o := by rw [← hgdef]; rfl
+  have gAm : g.attesterManager = a := by rw [← hgdef]; rfl
+  have gPa : g.pauser = p := by rw [← hgdef]; rfl
+  have gTc : g.tokenController = t := by rw [← hgdef]; rfl
+  have gAtt : g.attesters = attestersOf st := by rw [← hgdef]; rfl
+  have gLim : g.limits = scanMap st PerMessageBurnLimitKeyPrefix limOf := by rw [← hgdef]; rfl
+  have gBp : g.burnPaused = some bf := by rw [← hgdef]; simp [exported, hbf]
+  have gSp : g.sendPaused = some sf := by rw [← hgdef]; simp [exported, hsf]
+  have gMb : g.maxBody = some sz := by rw [← hgdef]; simp [exported, hsz]
+  have gNn : g.nextNonce = some nn := by rw [← hgdef]; simp [exported, hnn]
+  have gTh : g.threshold = some th := by rw [← hgdef]; simp [exported, hth]
+  have gPairs : g.pairs = scanMap st TokenPairKeyPrefix pairOf := by rw [← hgdef]; rfl
+  have gUsed : g.used = scanMap st UsedNonceKeyPrefix usedOf := by rw [← hgdef]; rfl
+  have gMsgr : g.messengers = scanMap st RemoteTokenMessengerKeyPrefix msgrOf := by rw [← hgdef]; rfl
+  -- importing succeeds
+  have hinit : Genesis.init ext [] g = .ok (Store.applyAll [] (initWrites ext g)) := by
+    have : g.threshold ≠ some 0 := by rw [gTh]; intro h; exact hth0 (Option.some.inj h)
+    simp [Genesis.init, must, this, bind, Except.bind, pure, Except.pure]
+  generalize hst' : Store.applyAll [] (initWrites ext g) = st' at hinit
+  have hgood' := good_init ext g st' hinit
+  suffices h : st' = st by rw [hinit, h]
+  apply Store.ext_of_get hgood'.wf hg.wf
+  intro k
+  obtain ⟨_, r1, r2, r3, r4, _⟩ := init_roles_set ext g st' hinit
+  obtain ⟨s1, s2, s3, s4, s5⟩ := init_scalars ext g st' hinit
+  -- (a) everything stored is restored
+  have fwd : ∀ v, st.get k = some v → st'.get k = some v := by
+    intro v hv
+    have hty := hg.typed k v hv
+    cases v with
+    | role r =>
+      rcases hty with rfl | rfl | rfl | rfl | rfl
+      · have : o = r := by have := getRole_some ho; rw [hv] at this; injection this with h; injection h with h; exact h.symm
+        rw [getRole_some r1, gOwner, this]
+      · rw [hx.noPending] at hv; cases hv
+      · have : a = r := by have := getRole_some ha; rw [hv] at this; injection this with h; injection h with h; exact h.symm
+        rw [getRole_some r2, gAm, this]
+      · have : p = r := by have := getRole_some hp; rw [hv] at this; injection this with h; injection h with h; exact h.symm
+        rw [getRole_some r3, gPa, this]
+      · have : t = r := by have := getRole_some ht; rw [hv] at this; injection this with h; injection h with h; exact h.symm
+        rw [getRole_some r4, gTc, this]
+    | attester x =>
+      subst hty
+      have hm : x ∈ g.attesters := by
+        rw [gAtt, attestersOf_scanMap_attOf, mem_scanMap_iff st hg.wf]; exact ⟨_, _, hv, prefix_attester x, rfl⟩
+      exact stored_of_listed ext g st' hinit g.attesters Key.attester Val.attester n1 (hseg_att ext g) x hm
+    | limit d x =>
+      subst hty
+      have hm : (d, x) ∈ g.limits := by
+        rw [gLim, mem_scanMap_iff st hg.wf]; exact ⟨_, _, hv, prefix_limit d, rfl⟩
+      exact stored_of_listed ext g st' hinit g.limits (fun l => Key.limit l.1) (fun l => Val.limit l.1 l.2) n2 (hseg_lim ext g) (d, x) hm
+    | flag b =>
+      rcases hty with rfl | rfl
+      · have : bf = b := by have := getFlag_some hbf; rw [hv] at this; injection this with h; injection h with h; exact h.symm
+        rw [getFlag_some s1, gBp, this]; rfl
+      · have : sf = b := by have := getFlag_some hsf; rw [hv] at this; injection this with h; injection h with h; exact h.symm
+        rw [getFlag_some s2, gSp, this]; rfl
+    | size n =>
+      subst hty
+      have : sz = n := by have := getSize_some hsz; rw [hv] at this; injection this with h; injection h with h; exact h.symm
+      rw [getSize_some s3, gMb, this]; rfl
+    | nonce d n =>
+      rcases hty with rfl | rfl
+      · have : nn = (d, n) := by
+          have := getNextNonce_some hnn; rw [hv] at this; injection this with h; injection h with h1 h2
+          exact Prod.ext h1.symm h2.symm
+        rw [getNextNonce_some s4, gNn, this]; rfl
+      · have hm : (d, n) ∈ g.used := by
+          rw [gUsed, mem_scanMap_iff st hg.wf]; exact ⟨_, _, hv, prefix_used d n, rfl⟩
+        exact stored_of_listed ext g st' hinit g.used (fun u => Key.usedNonce u.1 u.2) (fun u => Val.nonce u.1 u.2) n4 (hseg_used ext g) (d, n) hm
+    | threshold n =>
+      subst hty
+      have : th = n := by have := getThreshold_some hth; rw [hv] at this; injection this with h; injection h with h; exact h.symm
+      rw [getThreshold_some s5, gTh, this]; rfl
+    | pair d tk l =>
+      subst hty
+      have hm : (d, tk, l) ∈ g.pairs := by
+        rw [gPairs, mem_scanMap_iff st hg.wf]; exact ⟨_, _, hv, prefix_pair ext d tk, rfl⟩
+      exact stored_of_listed ext g st' hinit g.pairs (fun p => Key.tokenPair ext p.1 p.2.1) (fun p => Val.pair p.1 p.2.1 p.2.2) n3
+        (hseg_pair ext g) (d, tk, l) hm
+    | messenger d x =>
+      subst hty
+      have hm : (d, x) ∈ g.messengers := by
+        rw [gMsgr, mem_scanMap_iff st hg.wf]; exact ⟨_, _, hv, prefix_msgr d, rfl⟩
+      exact stored_of_listed ext g st' hinit g.messengers (fun m => Key.messenger m.1) (fun m => Val.messenger m.1 m.2) n5
+        (hseg_msgr ext g) (d, x) hm
+  -- (b) nothing is invented
+  have bwd : ∀ v, st'.get k = some v → st.get k = some v := by
+    intro v hv
+    have hm := listed_of_stored ext g st' hinit k v hv
+    rw [initWrites_eq] at hm
+    simp only [List.mem_append, segRoles, segAtt, segLim, segScalars, segPairs, segUsed, segMsgr, List.mem_cons, List.mem_map,
+      List.not_mem_nil, or_false, Prod.mk.injEq, Option.some.injEq] at hm
+    rcases hm with (⟨rfl, rfl⟩ | ⟨rfl, rfl⟩ | ⟨rfl, rfl⟩ | ⟨rfl, rfl⟩) | ⟨x, hxm, rfl, rfl⟩ | ⟨x, hxm, rfl, rfl⟩ |
+      (⟨rfl, rfl⟩ | ⟨rfl, rfl⟩ | ⟨rfl, rfl⟩ | ⟨rfl, rfl⟩ | ⟨rfl, rfl⟩) | ⟨x, hxm, rfl, rfl⟩ | ⟨x, hxm, rfl, rfl⟩ | ⟨x, hxm, rfl, rfl⟩
+    · rw [gOwner]; exact getRole_some ho
+    · rw [gAm]; exact getRole_some ha
+    · rw [gPa]; exact getRole_some hp
+    · rw [gTc]; exact getRole_some ht
+    · rw [gAtt, attestersOf_scanMap_attOf, mem_scanMap_iff st hg.wf] at hxm
+      obtain ⟨k', v', hgk, _, hf⟩ := hxm
+      cases v' <;> simp [attOf] at hf
+      subst hf; rw [← hg.typed k' _ hgk]; exact hgk
+    · rw [gLim, mem_scanMap_iff st hg.wf] at hxm
+      obtain ⟨k', v', hgk, _, hf⟩ := hxm
+      cases v' <;> simp [limOf] at hf
+      subst hf; rw [← hg.typed k' _ hgk]; exact hgk
+    · rw [gBp]; exact getFlag_some hbf
+    · rw [gSp]; exact getFlag_some hsf
+    · rw [gMb]; exact getSize_some hsz
+    · rw [gNn]; exact getNextNonce_some hnn
+    · rw [gTh]; exact getThreshold_some hth
+    · rw [gPairs, mem_scanMap_iff st hg.wf] at hxm
+      obtain ⟨k', v', hgk, _, hf⟩ := hxm
+      cases v' <;> simp [pairOf] at hf
+      subst hf; rw [← hg.typed k' _ hgk]; exact hgk
+    · rw [gUsed, mem_scanMap_iff st hg.wf] at hxm
+      obtain ⟨k', v', hgk, hp', hf⟩ := hxm
+      cases v' <;> simp [usedOf] at hf
+      subst hf
+      rcases hg.typed k' _ hgk with h | h
+      · exact absurd (Key.cls_of_prefix_usedNonce k' hp') (by rw [h]; simp)
+      · rw [← h]; exact hgk
+    · rw [gMsgr, mem_scanMap_iff st hg.wf] at hxm
+      obtain ⟨k', v', hgk, _, hf⟩ := hxm
+      cases v' <;> simp [msgrOf] at hf
+      subst hf; rw [← hg.typed k' _ hgk]; exact hgk
+  cases h1 : st'.get k with
+  | none =>
+    cases h2 : st.get k with
+    | none => rfl
+    | some v => rw [fwd v h2] at h1; cases h1
+  | some v => rw [bwd v h1]
+
+
+/-! ### every state reachable from a genesis (with no transfer in flight) survives export + import -/
+
+/-- the nine slots InitGenesis always fills. -/
+def slotKeys : List Bytes :=
+  [Key.owner, Key.attesterManager, Key.pauser, Key.tokenController, Key.burnPaused, Key.sendPaused, Key.maxBody,
+   Key.nextNonce, Key.threshold]
+
+theorem slot_cls {k : Bytes} (h : k ∈ slotKeys) :
+    ¬ (Key.cls k = 1 ∨ Key.cls k = 10 ∨ Key.cls k = 13 ∨ Key.cls k = 14) := by
+  simp only [slotKeys, List.mem_cons, List.not_mem_nil, or_false] at h
+  rcases h with rfl | rfl | rfl | rfl | rfl | rfl | rfl | rfl | rfl <;> simp
+
+/-- all nine slots are filled and the stored threshold is not 0. -/
+structure Settled (st : Store) : Prop where
+  filled : ∀ k ∈ slotKeys, (st.get k).isSome
+  thr : ∀ t, st.get Key.threshold = some (.threshold t) → t ≠ 0
+
+theorem settled_deliver (ext : Ext) (cfg : Cfg) (w : World) (f : List Bool) (m : Msg) (hg : Good ext w.store)
+    (hs : Settled w.store) : Settled (deliver ext cfg w f m).1.store := by
+  unfold deliver
+  split
+  · rename_i o ho
+    have hget : ∀ k, (w.store.applyAll o.writes).get k =
+        match lastWrite o.writes k with | some v => v | none => w.store.get k := fun k => get_applyAll _ _ _ hg.wf
+    constructor
+    · intro k hk
+      show ((w.store.applyAll o.writes).get k).isSome
+      rw [hget k]
+      cases hl : lastWrite o.writes k with
+      | none => exact hs.filled k hk
+      | some ov =>
+        cases ov with
+        | some v => rfl
+        | none => exact absurd (handle_deletes_cls ext cfg _ _ m o ho _ (lastWrite_mem hl) rfl) (slot_cls hk)
+    · intro t ht
+      have ht' : (w.store.applyAll o.writes).get Key.threshold = some (.threshold t) := ht
+      rw [hget Key.threshold] at ht'
+      cases hl : lastWrite o.writes Key.threshold with
+      | none => rw [hl] at ht'; exact hs.thr t ht'
+      | some ov =>
+        rw [hl] at ht'
+        simp only at ht'
+        subst ht'
+        have hm := lastWrite_mem hl
+        have hc := handle_writes_cls ext cfg _ _ m o ho _ hm
+        cases m <;> simp [docClasses] at hc
+        rename_i fr a
+        obtain ⟨_, ha, _, _, rfl⟩ := (updateSignatureThreshold_ok ..).mp ho
+        simp [C15.adminOut_writes] at hm
+        first | (rw [← hm]; exact ha) | (rw [hm]; exact ha) | (subst hm; exact ha)
+  · exact hs
+
+theorem settled_run (ext : Ext) (cfg : Cfg) (h : History) (w : World) (hg : Good ext w.store) (hs : Settled w.store) :
+    Settled (runState ext cfg w h).store :=
+  (run_inv ext cfg (fun w => Good ext w.store ∧ Settled w.store)
+    (fun w f m hw => ⟨good_deliver ext cfg w f m hw.1, settled_deliver ext cfg w f m hw.1 hw.2⟩) h w ⟨hg, hs⟩).2
+
+/-- in a well-typed store a filled slot holds a value of the slot's kind. -/
+theorem exportable_of_settled (ext : Ext) (st : Store) (hg : Good ext st) (hs : Settled st)
+    (hp : st.get Key.pendingOwner = none) : Exportable st := by
+  have slot : ∀ k ∈ slotKeys, ∃ v, st.get k = some v ∧ ValOK ext k v := fun k hk => by
+    obtain ⟨v, hv⟩ := Option.isSome_iff_exists.mp (hs.filled k hk)
+    exact ⟨v, hv, hg.typed k v hv⟩
+  have ne : ∀ {a b : Bytes}, Key.cls a ≠ Key.cls b → a ≠ b := fun h => Key.ne_of_cls h
+  have role : ∀ k ∈ slotKeys, Key.cls k ≤ 4 → (getRole st k).isSome := by
+    intro k hk hc
+    obtain ⟨v, hv, hty⟩ := slot k hk
+    cases v <;> simp only [ValOK] at hty
+    case role r => simp [getRole, hv]
+    all_goals (first | (rcases hty with h | h <;> (rw [h] at hc; simp at hc)) | (rw [hty] at hc; simp at hc))
+  have flag : ∀ k ∈ slotKeys, (Key.cls k = 5 ∨ Key.cls k = 6) → (getFlag st k).isSome := by
+    intro k hk hc
+    obtain ⟨v, hv, hty⟩ := slot k hk
+    cases v <;> simp only [ValOK] at hty
+    case flag b => simp [getFlag, hv]
+    all_goals (first | (rcases hty with h | h | h | h | h <;> (rw [h] at hc; simp at hc))
+                     | (rcases hty with h | h <;> (rw [h] at hc; simp at hc)) | (rw [hty] at hc; simp at hc))
+  refine ⟨⟨role _ (by simp [slotKeys]) (by simp), role _ (by simp [slotKeys]) (by simp), role _ (by simp [slotKeys]) (by simp),
+    role _ (by simp [slotKeys]) (by simp)⟩, hp, flag _ (by simp [slotKeys]) (by simp), flag _ (by simp [slotKeys]) (by simp), ?_, ?_, ?_⟩
+  · obtain ⟨v, hv, hty⟩ := slot Key.maxBody (by simp [slotKeys])
+    cases v <;> simp only [ValOK] at hty
+    case size n => simp [getSize, hv]
+    all_goals (first | (rcases hty with h | h | h | h | h <;> exact absurd h (ne (by simp)))
+                     | (rcases hty with h | h <;> exact absurd h (ne (by simp))) | exact absurd hty (ne (by simp)))
+  · obtain ⟨v, hv, hty⟩ := slot Key.nextNonce (by simp [slotKeys])
+    cases v <;> simp only [ValOK] at hty
+    case nonce d n => simp [getNextNonce, hv]
+    all_goals (first | (rcases hty with h | h | h | h | h <;> exact absurd h (ne (by simp)))
+                     | (rcases hty with h | h <;> exact absurd h (ne (by simp))) | exact absurd hty (ne (by simp)))
+  · obtain ⟨v, hv, hty⟩ := slot Key.threshold (by simp [slotKeys])
+    cases v <;> simp only [ValOK] at hty
+    case threshold n => exact ⟨n, by simp [getThreshold, hv], hs.thr n hv⟩
+    all_goals (first | (rcases hty with h | h | h | h | h <;> exact absurd h (ne (by simp)))
+                     | (rcases hty with h | h <;> exact absurd h (ne (by simp))) | exact absurd hty (ne (by simp)))
+
+theorem init_no_pending (ext : Ext) (g : Genesis) (st : Store) (h : Genesis.init ext [] g = .ok st) :
+    st.get Key.pendingOwner = none := by
+  cases hv : st.get Key.pendingOwner with
+  | none => rfl
+  | some v =>
+    exfalso
+    have hm := listed_of_stored ext g st h _ v hv
+    obtain ⟨_, c1, c2, c3, c4, c5, c6⟩ := seg_cls ext g
+    rw [initWrites_eq] at hm
+    simp only [List.mem_append] at hm
+    rcases hm with hm | hm | hm | hm | hm | hm | hm
+    · simp only [segRoles, List.mem_cons, List.not_mem_nil, or_false, Prod.mk.injEq] at hm
+      rcases hm with ⟨e, _⟩ | ⟨e, _⟩ | ⟨e, _⟩ | ⟨e, _⟩ <;> exact absurd e (Key.ne_of_cls (by simp))
+    · have := c1 _ hm; simp at this
+    · have := c2 _ hm; simp at this
+    · have := c3 _ hm; simp at this
+    · have := c4 _ hm; simp at this
+    · have := c5 _ hm; simp at this
+    · have := c6 _ hm; simp at this
+
+theorem settled_init (ext : Ext) (g : Genesis) (st : Store) (h : Genesis.init ext [] g = .ok st) : Settled st := by
+  obtain ⟨_, r1, r2, r3, r4, _⟩ := init_roles_set ext g st h
+  obtain ⟨s1, s2, s3, s4, s5⟩ := init_scalars ext g st h
+  constructor
+  · intro k hk
+    simp only [slotKeys, List.mem_cons, List.not_mem_nil, or_false] at hk
+    rcases hk with rfl | rfl | rfl | rfl | rfl | rfl | rfl | rfl | rfl
+    · rw [getRole_some r1]; rfl
+    · rw [getRole_some r2]; rfl
+    · rw [getRole_some r3]; rfl
+    · rw [getRole_some r4]; rfl
+    · rw [getFlag_some s1]; rfl
+    · rw [getFlag_some s2]; rfl
+    · rw [getSize_some s3]; rfl
+    · rw [getNextNonce_some s4]; rfl
+    · rw [getThreshold_some s5]; rfl
+  · intro t ht
+    rw [getThreshold_some s5] at ht
+    injection ht with ht; injection ht with ht
+    have h0 := (init_store ext g st h).2
+    intro e; rw [e] at ht
+    cases hth : g.threshold with
+    | none => rw [hth] at ht; simp at ht
+    | some x => rw [hth] at ht h0; simp at ht; exact h0 (by rw [ht])
+
+/-- **A chain restarted from its own export is the same chain**: for every genesis `g`, every history of
+    transactions (with any dependency faults) run from the state `InitGenesis g` builds, if no ownership
+    transfer is in flight at the end, then exporting the final state succeeds, the export has no key
+    collisions, and importing it into an empty chain rebuilds exactly the final store. -/
+theorem roundtrip_reachable (ext : Ext) (cfg : Cfg) (g : Genesis) (st0 : Store) (led : Ledger) (h : History)
+    (hi : Genesis.init ext [] g = .ok st0)
+    (hp : (runState ext cfg ⟨st0, led⟩ h).store.get Key.pendingOwner = none) :
+    ∃ g', exportG (runState ext cfg ⟨st0, led⟩ h).store = .ok g' ∧
+      Genesis.init ext [] g' = .ok (runState ext cfg ⟨st0, led⟩ h).store := by
+  have hg := good_run ext cfg h ⟨st0, led⟩ (good_init ext g st0 hi)
+  have hs := settled_run ext cfg h ⟨st0, led⟩ (good_init ext g st0 hi) (settled_init ext g st0 hi)
+  obtain ⟨g', h1, h2, _⟩ := init_export_partial ext _ hg (exportable_of_settled ext _ hg hs hp)
+  exact ⟨g', h1, h2⟩
+
+/-- non-vacuity: the state any accepted genesis builds is itself exportable (so `init ∘ export ∘ init = init`). -/
+theorem exportable_of_init (ext : Ext) (g : Genesis) (st : Store) (h : Genesis.init ext [] g = .ok st) : Exportable st :=
+  exportable_of_settled ext st (good_init ext g st h) (settled_init ext g st h) (init_no_pending ext g st h)
+
+
+/-! ### the KNOWN FINDING -/
 
 def toyExt : Ext := ⟨fun b => b, fun _ _ => none, fun b => some b, fun b => some b, id, fun _ _ => false, fun _ => false, id⟩
 
